@@ -509,9 +509,23 @@ impl<const M: usize> St<M> {
         CB_COUNT.with(|c| c.set(0));
         CB_FIRED.with(|c| c.set(false));
         let mut bump = self.bump.take();
+        // an arena that holds no memory points at the shared static empty chunk: nothing it does may store there
+        let guarded = self.gablocks.is_empty();
+        if guarded {
+            crate::sentguard::take_hits();
+            crate::sentguard::protect();
+        }
         rec::begin();
         let r = catch_unwind(AssertUnwindSafe(|| f(&mut bump)));
         let ga = rec::end();
+        if guarded {
+            crate::sentguard::unprotect();
+            let (hits, off) = crate::sentguard::take_hits();
+            if hits > 0 {
+                // reported like a hooked store into the sentinel (site 90 + byte offset of the field written)
+                let _ = STORES.try_with(|s| s.borrow_mut().push([sentinel_v(), 1, 90 + off as i64]));
+            }
+        }
         rec::clear_panicking();
         let hung = rec::take_hung();
         let pmsg = rec::take_panic_msg();
@@ -1930,6 +1944,7 @@ pub fn iso_of(e: &Event, solo: bool) -> IsoEvent {
 pub fn init() {
     rec::set_slice(0);
     rec::install_panic_hook();
+    crate::sentguard::install();
     bumpalo::__verif::set_sink(Some(store_sink));
 }
 
